@@ -15,6 +15,11 @@ CHECKS = {
    level_text='Design: TLC checks ConvergedUids/ConvergedFlags on MailboxSync.tla (the change log is modelled exactly as one latest record per UID). Code: every replayed TLC behaviour and every random checkpoint-interleaved execution ends with NOOP on each session at quiescence and a probe of the store; TLC validates C02_ConvergedUids / C02_ConvergedFlags on each recorded execution.',
    level_note='Trusted: TLC, strict response parser, glass-box read of MailboxData._messages as ground truth. \\Recent is excluded from the flag comparison (session flag: C17). Dict backend only.',
    design_ref='DESIGN.md section 7 C02'),
+ 'C04': dict(
+   technique='random checkpoint-interleaved histories of APPEND/COPY/MOVE/EXPUNGE/RENAME/CREATE/DELETE/STATUS/SELECT by 2-3 sessions on the real server, arrival instants and content ids read from the store, validated by TLC against the UID observer spec Trace_Uids.tla; MailboxSync.tla behaviours replayed with maxuid compared',
+   level_text='TLC judges every recorded execution against Trace_Uids.tla: each UID given out in a mailbox identity exceeds every UID ever given out there (also after expunging the highest), UIDNEXT from SELECT/EXAMINE/STATUS exceeds every UID existing at command start and is never above a UID assigned later, APPENDUID names the right UIDVALIDITY and exactly the UIDs under which that command\'s messages became visible, COPYUID pairs source and destination UIDs of identical content in order. Histories include RENAME (INBOX too), DELETE/CREATE of destinations, MOVE/COPY to self, concurrent appenders at every lock checkpoint.',
+   level_note='Mailbox identity is the backend object behind a name (glass box). UIDVALIDITY freshness of a re-created name is assumed (16 random bits per second). Dict backend only so far: the maildir part (uidlist persistence across crash/restart) is not covered by this check yet.',
+   design_ref='DESIGN.md section 7 C04'),
  'C12': dict(
    technique='TLC checks the action property ReadOnlyInert on MailboxSync.tla; random programs of message commands issued inside a read-only selection on the real server (checkpoint-interleaved with observing sessions), glass-box dump after every tagged response, validated by TLC against the observer spec Trace_RO.tla',
    level_text='Design: on MailboxSync.tla TLC checks that no step of a session with a read-only selection changes the store. Code: one session EXAMINEs INBOX or SELECTs a backend-read-only mailbox and issues seeded random programs of every message command and UID variant (STORE incl. \\Recent, \\Seen-setting FETCH, EXPUNGE, UID EXPUNGE, COPY, MOVE, SEARCH, NOOP, CHECK, CLOSE) and APPEND/COPY/MOVE into the read-only mailbox, interleaved at every lock checkpoint with 0-2 observing sessions; after every tagged response a dump (UIDs, permanent flags, stored recent bits) is logged; TLC checks on each recorded execution that every dump equals the baseline, that STORE/EXPUNGE/deliveries into the read-only mailbox answer NO, and that CLOSE answers OK and deselects.',
